@@ -271,6 +271,15 @@ impl Walrus {
                 if s.ends_with("_index.db") {
                     continue;
                 }
+                // A WAL file is extended to its full size before anything is written to
+                // it, so a shorter file holds no entries: it is the leftover of a crash
+                // between creating a file and sizing it, or a temporary index file that
+                // was never renamed. Scanning it would read past its end.
+                if let Ok(md) = entry.metadata() {
+                    if md.len() < MAX_FILE_SIZE {
+                        continue;
+                    }
+                }
                 files.push(s.to_string());
             }
         }
